@@ -44,6 +44,13 @@ type sessionSpec struct {
 	ModSubdir string `json:"mod_subdir"` // push: rsync://host/mod/<subdir>
 	FaultyDir string `json:"faulty_dir"` // pull: serve the module through an fs.FS whose ReadDir fails for this directory
 	TimeoutMs int    `json:"timeout_ms"`
+	// interruption of the byte stream towards the receiving side (library arrangements):
+	// snapshots of Dest while the receiver is blocked at each of FreezeAt (ascending),
+	// end of that stream at CutAt, SIGKILL of the whole process at KillAt (-1/0 = off)
+	FreezeAt []int64 `json:"freeze_at,omitempty"`
+	CutAt    int64   `json:"cut_at,omitempty"`
+	KillAt   int64   `json:"kill_at,omitempty"`
+	CutBack  int64   `json:"cut_back,omitempty"` // end of the stream from the receiving side at this offset
 }
 
 type sessionResult struct {
@@ -55,6 +62,49 @@ type sessionResult struct {
 	SrvErr  string `json:"srv_err"` // server-side handler error, if observable
 	Elapsed int    `json:"elapsed_ms"`
 	Bytes   int64  `json:"bytes"` // bytes on the wire, both directions (-1: not observable, local copies)
+	// bytes that reached the receiving side, and the snapshots taken at FreezeAt
+	ToReceiver int64    `json:"to_receiver"`
+	MidSnaps   []string `json:"mid_snaps,omitempty"`
+}
+
+// gateReader counts the bytes towards one side and interrupts at byte offsets.
+type gateReader struct {
+	r        io.Reader
+	n        int64
+	freezeAt []int64
+	cutAt    int64
+	killAt   int64
+	onFreeze func()
+	onCut    func()
+}
+
+func (g *gateReader) Read(p []byte) (int, error) {
+	for len(g.freezeAt) > 0 && g.freezeAt[0] <= g.n {
+		g.onFreeze()
+		g.freezeAt = g.freezeAt[1:]
+	}
+	if g.killAt > 0 && g.n >= g.killAt {
+		syscall.Kill(os.Getpid(), syscall.SIGKILL)
+		select {}
+	}
+	if g.cutAt > 0 && g.n >= g.cutAt {
+		if g.onCut != nil {
+			g.onCut()
+		}
+		return 0, io.ErrUnexpectedEOF
+	}
+	lim := int64(len(p))
+	for _, b := range []int64{g.cutAt, g.killAt} {
+		if b > 0 && b-g.n < lim {
+			lim = b - g.n
+		}
+	}
+	if len(g.freezeAt) > 0 && g.freezeAt[0]-g.n < lim {
+		lim = g.freezeAt[0] - g.n
+	}
+	n, err := g.r.Read(p[:lim])
+	g.n += int64(n)
+	return n, err
 }
 
 type countConn struct {
@@ -193,15 +243,28 @@ func runSessionInProcess(sp sessionSpec) (res sessionResult) {
 				paths = append(paths, filepath.Join(sp.SrcRoot, s)+trailing(s))
 			}
 		}
+		closeAll := func() { c2sW.Close(); s2cW.Close(); c2sR.Close(); s2cR.Close() }
+		toRecv := &gateReader{freezeAt: sp.FreezeAt, cutAt: sp.CutAt, killAt: sp.KillAt, onCut: closeAll,
+			onFreeze: func() { res.MidSnaps = append(res.MidSnaps, takeSnapshot(sp.Dest).canon("tc")) }}
+		toSend := &gateReader{cutAt: sp.CutBack, onCut: closeAll}
+		var cliR, srvR io.Reader = s2cR, c2sR
+		if sp.Arr == "libpull" {
+			toRecv.r, toSend.r = s2cR, c2sR
+			cliR, srvR = toRecv, toSend
+		} else {
+			toRecv.r, toSend.r = c2sR, s2cR
+			cliR, srvR = toSend, toRecv
+		}
+		defer func() { res.ToReceiver = toRecv.n }()
 		srvDone := make(chan error, 1)
 		go func() {
-			conn := rsyncd.NewConnection(c2sR, s2cW, "lib")
+			conn := rsyncd.NewConnection(srvR, s2cW, "lib")
 			e := srv.HandleConnArgs(ctx, conn, nil, sargs)
 			s2cW.Close()
 			c2sR.Close()
 			srvDone <- e
 		}()
-		_, err = cl.Run(ctx, countRW{s2cR, c2sW, &wire}, paths)
+		_, err = cl.Run(ctx, countRW{cliR, c2sW, &wire}, paths)
 		c2sW.Close()
 		s2cR.Close()
 		select {
